@@ -11,6 +11,7 @@ Inductive case :=
   | KF (k : key) (vlen maxsize : Z) (mks mvc chunks : N)
        (o_valid : bool) (o_max o_dec o_num : option N) (o_vv o_verify : bool)
        (o_enc : option key) (o_encvv : bool) (o_encch : key) (o_encchmax : option N) (o_add : bool)
+       (o_addpre : bool)   (* Keys.Add on a set that already holds the key (with Write permission, put there directly) *)
   | KI (k : key) (vlen : N) (all : bool) (p : N) (present : bool) (o_err o_get : N)
   | KH (c : TstateCase.case).   (* a whole view history (format of C04/C05) with lengths at the bounds *)
 
@@ -23,13 +24,14 @@ Definition ki_view (k : key) (all : bool) (p : N) (present : bool) : view :=
 
 Definition check_case (c : case) : bool :=
   match c with
-  | KF k vlen maxsize mks mvc chunks o_valid o_max o_dec o_num o_vv o_verify o_enc o_encvv o_encch o_encchmax o_add =>
+  | KF k vlen maxsize mks mvc chunks o_valid o_max o_dec o_num o_vv o_verify o_enc o_encvv o_encch o_encchmax o_add o_addpre =>
       Bool.eqb (valid k) o_valid && on_eqb (max_chunks k) o_max && on_eqb (decode_chunks k) o_dec
       && on_eqb (num_chunks_z vlen) o_num && Bool.eqb (verify_value_len k vlen) o_vv
       && Bool.eqb (verify mks mvc k) o_verify && okey_eqb (encode k maxsize) o_enc
       && Bool.eqb (match encode k maxsize with Some k' => verify_value_len k' vlen | None => false end) o_encvv
       && bytes_eqb (encode_chunks k chunks) o_encch && on_eqb (max_chunks (encode_chunks k chunks)) o_encchmax
       && Bool.eqb (is_some (keys_add ∅ k 1)) o_add
+      && Bool.eqb (is_some (keys_add {[k := 5]} k 1)) o_addpre
   | KI k vlen all p present o_err o_get =>
       let v := rep vlen 5 in
       let '(s', e) := insert (ki_view k all p present) k v in
@@ -75,10 +77,10 @@ Definition kh_ok (c : TstateCase.case) : bool :=
 
 Definition spec_ok (c : case) : bool :=
   match c with
-  | KF k vlen maxsize mks mvc chunks o_valid o_max o_dec o_num o_vv o_verify o_enc o_encvv o_encch o_encchmax o_add =>
+  | KF k vlen maxsize mks mvc chunks o_valid o_max o_dec o_num o_vv o_verify o_enc o_encvv o_encch o_encchmax o_add o_addpre =>
       let short := N.ltb (klen k) 2 in
       (* the declared chunk count is the big-endian number in the last two bytes; shorter keys are invalid *)
-      Bool.eqb o_valid (negb short) && on_eqb o_max (suffix k) && on_eqb o_dec (suffix k) && Bool.eqb o_add (negb short)
+      Bool.eqb o_valid (negb short) && on_eqb o_max (suffix k) && on_eqb o_dec (suffix k) && Bool.eqb o_add (negb short) && Bool.eqb o_addpre (negb short)
       && on_eqb o_num (if (chunks_of vlen <=? 65535)%Z then Some (Z.to_N (chunks_of vlen)) else None)
       (* a value can be written only if its chunk count does not exceed that number *)
       && Bool.eqb o_vv (admits k vlen)
